@@ -295,7 +295,6 @@ class Visitor(
         except KeyError as err:
             raise dsl.UnprovisionedError(f'Unknown mapping for feature {feature}') from err
 
-    @functools.lru_cache
     def generate_feature(self, feature: 'dsl.Feature') -> 'parser.Feature':
         """Generate target code for the generic feature type.
 
